@@ -650,7 +650,7 @@ def run(ctx):
   tot = 0
   for pi, pj in pairs:
     tot += explore_threads(ctx, pi, pj, 'events', 2 if not ctx.thorough else 3, 3000 if not ctx.thorough else 30000)
-    tot += explore_threads(ctx, pi, pj, 'lines', 1 if not ctx.thorough else 2, 1500 if not ctx.thorough else 20000)
+    tot += explore_threads(ctx, pi, pj, "lines", 1 if not ctx.thorough else 2, 3000 if not ctx.thorough else 20000)
   for nested in (False, True):
     tot += explore_dyn_apply(ctx, nested, 1 if not ctx.thorough else 2, 1500 if not ctx.thorough else 30000)
   ctx.states += len(items) + tot
